@@ -61,7 +61,7 @@ EXT_FOR = {
 TARGET_STATES = ["absent", "file", "empty_folder", "nonempty_folder"]
 FLAGS = ["unset", "false", "true"]
 MATRIX_FAULTS = ["none", "plugin_entry", "open_fail_1", "open_fail_2", "torn_crash_1"]
-RESULT_NAMES = ["fit", "fit2", "fi", "refit", "fit_run_b", "fit_run_2", "fit_run_0000", "a_run_", "sub/fit", None]
+RESULT_NAMES = ["fit", "fit2", "fi", "refit", "fit_run_b", "fit_run_2", "fit_run_0000", "a_run_", "sub/fit", "sub", None]
 RUN_PATTERN = re.compile(r".+_run_\d{4}$")
 
 MODEL_YML = """
@@ -100,7 +100,9 @@ def gen_fault(rng: random.Random) -> dict | None:
     return {"kind": kind, "n": rng.choice([1, 1, 2, 3, 5, 8])}
 
 
-FREE_PATHS = ["a.csv", "a.yml", "a.tsv", "d", "d/result.yml", "d/model.yml", "d.nc", "a.xlsx", "b.ascii", "d/sub/a.csv"]
+FREE_PATHS = ["a.csv", "a.yml", "a.tsv", "d", "d/result.yml", "d/model.yml", "d.nc", "a.xlsx", "b.ascii", "d/sub/a.csv",
+              # "link" is a symlink to real/inner: the same file reached lexically different ways
+              "real/a.csv", "link/../a.csv", "real/a.csv", "link/../a.csv"]
 
 
 def generate(rng: random.Random, tier: str) -> dict:
@@ -551,6 +553,8 @@ class Run:
         self.proj_dir = os.path.join(self.sandbox, "proj")
         self.free_dir = os.path.join(self.sandbox, "free")
         os.makedirs(self.free_dir)
+        os.makedirs(os.path.join(self.free_dir, "real", "inner"))
+        os.symlink(os.path.join("real", "inner"), os.path.join(self.free_dir, "link"))
         # set the project up through the public API (fault-free)
         project = self.open_project()
         handles = [project, self.open_project()] if plan.get("two_handles") else [project]
@@ -733,7 +737,7 @@ class Run:
         fn_name = op["fn"]
         what = SAVE_FNS[fn_name][1]
         target = os.path.join(self.free_dir, op["path"])
-        rel = os.path.relpath(target, self.sandbox)
+        rel = os.path.relpath(os.path.realpath(target), os.path.realpath(self.sandbox))
         state = "absent"
         if os.path.isfile(target):
             state = "file"
@@ -760,8 +764,14 @@ class Run:
                 rec.violate("C18/refusal-changed-files", "refusal", f"{tag}: changed {self.changed(before, after)}")
         else:
             scope = [rel]
+            # a path through a symlinked directory followed by '..' names two places: the one the OS reaches and the
+            # lexically normalised one (which e.g. the netCDF writer of xarray uses); both count as the op's target
+            lexical = os.path.relpath(os.path.normpath(target), os.path.realpath(self.sandbox))
+            if lexical != rel:
+                scope.append(lexical)
+                rec.probe("target_through_symlink_dotdot")
             if fn_name == "save_result" and rel.endswith((".yml", ".yaml")):
-                scope = [os.path.dirname(rel)]
+                scope = [os.path.dirname(p) for p in scope]
             # parents created by protect_from_overwrite are fine (dirs only)
             bad = [k for k in self.changed(before, after, scope) if not (k.endswith("/") and k not in before)]
             if bad:
@@ -878,6 +888,18 @@ class Run:
         except Exception as e:  # noqa: BLE001
             self.rec.violate("C18/result-not-loadable", "accumulation", f"complete run {folder!r} does not load: {type(e).__name__}: {e}")
 
+    def is_plain_folder_of_that_name(self, path, base):
+        """No run of ``base`` exists, but a folder named exactly ``base`` does (e.g. the parent folder of a nested
+        result name, or a result saved by hand): the API hands that folder out.  The property speaks about runs;
+        this case is recorded, not judged."""
+        if path is None:
+            return False
+        got = os.path.relpath(os.path.realpath(str(path)), os.path.realpath(os.path.join(self.proj_dir, "results")))
+        if got == base and not RUN_PATTERN.match(got):
+            self.rec.stat("lookup_returned_plain_folder_without_runs")
+            return True
+        return False
+
     def expected_latest(self, base):
         known = self.runs.get(base) or {}
         return f"{base}_run_{max(known):04d}" if known else None
@@ -903,7 +925,7 @@ class Run:
             return
         rec.oracle_after_fault += 1
         if want is None:
-            if not isinstance(err, ValueError):
+            if not isinstance(err, ValueError) and not self.is_plain_folder_of_that_name(path, base):
                 rec.violate("C18/latest-lookup", "lookup", f"get_latest_result_path({query!r}) with no run of {base!r}: expected ValueError, got {path or err!r}")
             return
         if err is not None:
@@ -941,7 +963,7 @@ class Run:
         else:
             want = query if op["run"] in (self.runs.get(base) or {}) else None
         if want is None:
-            if not isinstance(err, ValueError):
+            if not isinstance(err, ValueError) and not (op["run"] is None and self.is_plain_folder_of_that_name(path, base)):
                 rec.violate("C18/result-lookup", "lookup", f"get_result_path({query!r}): expected ValueError, got {path or err!r}")
             return
         if err is not None:
